@@ -50,6 +50,8 @@ def gen_simulation(rs, n_rows=(24, 60), force_nn_pair=None, absent_arm=False, fo
             used_metrics.append(c["np"]["metric"])
             if p == "knn":
                 c["np"]["k"] = int(gen.pick(rs, [1, 2, 3]))
+        if p in ("radius", "knn", "lsh") and rs.integers(4) == 0:
+            c["n_jobs"], c["backend"] = int(gen.pick(rs, [2, 3, 4])), "threading"  # worker threads inside the simulation
         cfgs.append(c)
     kinds = {c["lp"]["kind"] for c in cfgs}
     contextual = any(gen.is_ctx(c) for c in cfgs)
@@ -147,7 +149,13 @@ def run_simulator(sim_spec, bandits):
     try:
         sim = Simulator(bandits=bandits, decisions=d, rewards=r, contexts=X, scaler=None, test_size=p["test_size"],
                         is_ordered=p["is_ordered"], batch_size=p["batch_size"], seed=p["seed"], is_quick=p["is_quick"])
-        sim.run()
+        if any(c.get("backend") == "threading" for c in sim_spec["cfgs"]):
+            from mon import sched
+            with sched.FastSwitch():  # the simulation's worker threads interleave inside their pure-Python sections
+                sim.run()
+            sim_spec["threaded"] = True
+        else:
+            sim.run()
     finally:
         os.environ.pop("MABWISER_VERIF_GB_SCALE", None)
         for h in list(root.handlers):
